@@ -155,6 +155,9 @@ def auto_discharge(f, b, s):
             own = peel(c.args[0])
             if len(same) == 1 and isinstance(own, tuple) and own[0] == "field" and peel(own[1]) in (("param", 1), ("deref", ("param", 1))):
                 return "the only RefCell borrow of this field in a method of a !Sync local metric (no other borrow can be live)"
+        if c.matches(["Index::index"]) and "HashMap<std::string::String, std::string::String>" in c.callee_args and b.path.startswith("prometheus::desc::Desc::new"):
+            return ("const_labels[name] inside Desc::new: the names come from the set that holds exactly the keys of const_labels at that point "
+                    "(C15.R3 `id|sources` and `id|values-before-variable-names` check the set's content and the order of construction)")
         if c.matches(["str::split_at", "Index::index"]) and len(c.args) == 2:
             # slicing a string at the position memchr found an ASCII needle in that same string: in range and on a char boundary
             recv = peel(c.args[0])
